@@ -56,29 +56,29 @@ Definition ops_f05 : list op :=
 Definition cfg0 : cfg := mkCfg [] [] [] [] 100 true.
 
 (* with the repaired code the owner-pointer invariant holds after every operation sequence *)
-Lemma owner_ok_run : forall ops, ops_ok ops -> owner_ok (run ops).
-Proof. intros ops OK d x Hd Hx. apply (owner_pointer ops d x OK Hd Hx). Qed.
+Lemma owner_ok_run : forall ops, owner_ok (run ops).
+Proof. intros ops d x Hd Hx. apply (owner_pointer ops d x Hd Hx). Qed.
 
-Lemma visible_entitled_run : forall ops c user qs x, ops_ok ops -> user <> [] ->
+Lemma visible_entitled_run : forall ops c user qs x, user <> [] ->
   In x (fst (query_split (run ops) c user qs)) ->
   (exists d, In d (listed (run ops)) /\ In x (ditems d)) /\ holder_permits (run ops) c user x.
 Proof.
-  intros ops c0 user qs x OK Hu H. split.
+  intros ops c0 user qs x Hu H. split.
   - assert (Hr : In x (query_items (run ops) (parse qs) (phrases c0) (max_results c0))) by (apply (split_sub (run ops) c0 user); left; exact H).
     apply query_sound in Hr. destruct Hr as [Hi _]. apply indexed_listed in Hi. unfold listed_items in Hi.
     apply in_flat_map in Hi. exact Hi.
-  - apply (visible_entitled (run ops) c0 user _ x (owner_ok_run ops OK) Hu H).
+  - apply (visible_entitled (run ops) c0 user _ x (owner_ok_run ops) Hu H).
 Qed.
 
-Lemma locked_not_entitled_run : forall ops c user qs x, ops_ok ops ->
+Lemma locked_not_entitled_run : forall ops c user qs x,
   In x (snd (query_split (run ops) c user qs)) ->
   (exists d, In d (listed (run ops)) /\ In x (ditems d)) /\ holder_locks (run ops) c user x.
 Proof.
-  intros ops c0 user qs x OK H. split.
+  intros ops c0 user qs x H. split.
   - assert (Hr : In x (query_items (run ops) (parse qs) (phrases c0) (max_results c0))) by (apply (split_sub (run ops) c0 user); right; exact H).
     apply query_sound in Hr. destruct Hr as [Hi _]. apply indexed_listed in Hi. unfold listed_items in Hi.
     apply in_flat_map in Hi. exact Hi.
-  - apply (locked_not_entitled (run ops) c0 user _ x (owner_ok_run ops OK) H).
+  - apply (locked_not_entitled (run ops) c0 user _ x (owner_ok_run ops) H).
 Qed.
 
 (* ------------------------------------------------------------------ shares listing / directory contents *)
